@@ -49,14 +49,43 @@ Definition exchange_order : Prop :=
   cpath [T;F] (go_block sk) = tr 5 0 rq [off XStep; off XStep; on XTick] /\
   cpath [F;T] (go_block sk) = tr 5 0 rq [off XStep; off XStep; off XCtxDone; on XHelper] /\
   (* a nil context is refused before anything else happens *)
-  hd "" (cpath [T] sk) = "panic".
+  cpath [T] sk = ["panic"].
 
 Example authentic_reply_trace :
-  cpath [F;F;T;F;T;F;F;F] sk = ["encode"; "dial"; "write"; "go"; "read"; "stop"; "cancel"; "close"; "return:received,nil"].
+  cpath [F;F;T;F;T;F;F;F] sk = ["encode"; "dial"; "write"; "go"; "read"; "stop"; "cancel"; "close"; "return:(Parse#0),nil"].
 Proof. vm_compute. reflexivity. Qed.
 
 Lemma exchange_order_holds : exchange_order.
 Proof.
   unfold exchange_order.
   repeat match goal with |- _ /\ _ => split end; vm_compute; reflexivity.
+Qed.
+
+(* ---- completeness: there is no other path (cf. Proofs/ShutdownShape.v) ---- *)
+Definition after_dial (retry : Z) : list (list string) :=
+  [ tr retry 0 rq [on XStep; on XStep; on XReadErr];
+    tr retry 0 rq [on XStep; on XStep; off XCtxDone; on XReadErr];
+    tr retry 3 rq [on XStep; on XStep; on (XDatagram garbage)];
+    tr retry 1 rq [on XStep; on XStep; on (XDatagram garbage)];
+    tr retry 1 rq [on XStep; on XStep; on (XDatagram forged)];
+    tr retry 0 rq [on XStep; on XStep; on (XDatagram good)] ].
+Definition exchange_traces : list (list string) :=
+  [ ["panic"];
+    tr 5 0 unencodable [on XStep];
+    tr 5 0 rq [on XStep; on XDialFail];
+    tr 5 0 rq [off XCtxDone; on XStep; on XDialFail] ] ++ after_dial 5 ++ after_dial 0.
+Definition helper_traces : list (list string) :=
+  [ tr 5 0 rq [off XStep; off XStep; on XTick];
+    tr 5 0 rq [off XStep; off XStep; off XCtxDone; on XHelper];
+    tr 5 0 rq [off XStep; off XStep; on XTick; off XCtxDone; on XHelper];
+    [] ].                                                  (* still waiting in its select *)
+
+Definition exchange_paths_complete : Prop :=
+  (forall ds, List.length ds = 9 -> In (cpath ds sk) exchange_traces) /\
+  (forall ds, List.length ds = 2 -> In (cpath ds (go_block sk)) helper_traces).
+
+Lemma exchange_paths_complete_holds : exchange_paths_complete.
+Proof.
+  unfold exchange_paths_complete, cpath; split; intros ds Hlen;
+    (apply paths_within_spec with (n := List.length ds); [rewrite Hlen; vm_compute; reflexivity | apply all_lists_complete; reflexivity]).
 Qed.
